@@ -442,6 +442,19 @@ class InterpBase:
         return T("call", "listcomp", (C(ast.unparse(e)),), ty=("list", None))
 
     def ev_DictComp(self, e, env, mod, fn):
+        # {k(x): v(x) for x in <literal sequence>}: the entries, in order (later duplicates of a key replace earlier ones)
+        if len(e.generators) == 1 and not e.generators[0].ifs and not e.generators[0].is_async:
+            g = e.generators[0]
+            it = self.ev(g.iter, env, mod, fn)
+            if it.k in ("list", "tuple") and len(it.a[0]) <= 64:
+                entries = []
+                for item in it.a[0]:
+                    sub = env.clone()
+                    self.assign(g.target, item, sub, mod, fn)
+                    k_ = self.ev(e.key, sub, mod, fn)
+                    v_ = self.ev(e.value, sub, mod, fn)
+                    entries = [(a_, b_) for a_, b_ in entries if a_ != k_] + [(k_, v_)]
+                return T("dictlit", tuple(entries), ty="dict")
         return T("call", "dictcomp", (C(ast.unparse(e)),), ty="dict")
 
     def ev_GeneratorExp(self, e, env, mod, fn):
@@ -754,8 +767,19 @@ class InterpBase:
         if base.k == "dictlit" or base.ty == "dict" or (base.k == "obj" and base.ty == "dict"):
             if base.k == "dictlit":
                 for k, v in base.a[0]:
-                    if k == i:
+                    if k == i or (k.k == "const" and i.k == "const" and k.a[0] == i.a[0] and type(k.a[0]) is type(i.a[0])):
                         return v
+                if i.k != "const" and base.a[0] and all(k.k == "const" for k, _v in base.a[0]) and len(base.a[0]) <= 32:
+                    # a symbolic key against constant keys: KeyError unless it equals one of them
+                    hit = FALSE
+                    for k, _v in base.a[0]:
+                        hit = binop("or", hit, binop("==", i, C(k.a[0])))
+                    self.log_raise("KeyError", env, node, kind="key", cond=un("not", hit))
+                    env.add_fact(hit)
+                    out_ = base.a[0][-1][1]
+                    for k, v in reversed(base.a[0][:-1]):
+                        out_ = gamma(binop("==", i, C(k.a[0])), v, out_)
+                    return out_
                 # a fully known dictionary without that key (same convention as .get() on it): the lookup raises
                 self.log_raise("KeyError", env, node, kind="key")
                 env.dead = True
